@@ -323,7 +323,10 @@ func (b *bwrap) Write(ctx context.Context, key []byte, v interface{}) error {
 	b.h.nwrite++
 
 	if err := b.h.fault("write"); err != nil {
-		b.h.ev(FEv{Kind: "fault", Key: b.h.keyIndex(key), Err: err, Name: "write"})
+		fe := FEv{Kind: "fault", Key: b.h.keyIndex(key), Err: err, Name: "write", TTL: cache.TTL(ctx)}
+		fe.Tok, _ = v.(Tok)
+		b.h.ev(fe)
+
 		return err
 	}
 
@@ -470,7 +473,7 @@ func (b *bwrapOf) Write(ctx context.Context, key []byte, v Tok) error {
 	b.h.nwrite++
 
 	if err := b.h.fault("write"); err != nil {
-		b.h.ev(FEv{Kind: "fault", Key: b.h.keyIndex(key), Err: err, Name: "write"})
+		b.h.ev(FEv{Kind: "fault", Key: b.h.keyIndex(key), Err: err, Name: "write", TTL: cache.TTL(ctx), Tok: v})
 		return err
 	}
 
